@@ -500,3 +500,33 @@ def default_long_ops(seq_ops, job, target=1100):
                 seen.add(key)
                 out.append((kind, case))
     return out
+
+
+def interrupt_jobs(n, curve=None, weight=4):
+    return [{"name": f"interrupted/{i}", "part": "interrupted", "idx": i, "curve": curve, "weight": weight} for i in range(n)]
+
+
+def run_interrupt_job(job, xs, probes, run_case, files):
+    """E6 (vf/seqexplore.interrupted): operation xs[idx] interrupted at every line, then the probe operations"""
+    from vf import seqexplore
+    _preimport_plain()
+    acc = Acc(job)
+    hits = 2 if job["tier"] == "quick" else 4
+    n = seqexplore.interrupted(acc, xs[job["idx"]], [p for p in probes if not p[0].startswith("env-")], run_case, files, scratch_dir(), max_hits=hits)
+    acc.ob("interrupted_calls", n)
+    acc.sample({"interrupted_operation": xs[job["idx"]][0], "interruption_points": n, "probes": len(probes), "line_hit_bound": hits})
+    acc.extra["line_hit_bound"] = hits
+    return acc.result()
+
+
+def _preimport_plain():
+    """import every library module (so that a first import is never what gets interrupted)"""
+    import pkgutil
+    import bits
+    for m in pkgutil.walk_packages(bits.__path__, "bits."):
+        if m.name.endswith("__main__") or m.name.startswith("bits.cli"):
+            continue
+        try:
+            importlib.import_module(m.name)
+        except Exception:
+            pass
